@@ -72,6 +72,7 @@ def run(ctx):
     tdb_rules(ctx, A)
     seq_rules(ctx)
     type_size_rules(ctx)
+    plumbing(ctx)
 
 
 # ------------------------------------------------------------------------------------------------
@@ -708,3 +709,110 @@ def type_size_rules(ctx):
             vals = [v for v in vals if not is_call(v, 'from_residual')]
             ok = len(vals) == 1 and find_calls(vals[0], 'Type::alignment') and not any(isinstance(x, tuple) and x[0] == 'bin' for x in walk(vals[0]))
             ctx.ob(['C02'], 'R-EXPR', 'Type::alignment|Array', bool(ok), 'alignment of an array is its element\'s alignment: %s' % [show(x)[:100] for x in vals], loc(f.span))
+
+
+# ------------------------------------------------------------------------------------------------
+def plumbing(ctx):
+    """small accessors every layout argument goes through: each must hand on exactly the value it is named after"""
+    P = ctx.prog
+
+    def one(suffix):
+        c = [f for f in P.fns.values() if f.id.endswith(suffix)]
+        return c[0] if len(c) == 1 else None
+
+    def single_exit(f):
+        ex = [x for x in f.exits()]
+        return ex[0]['expr'] if len(ex) == 1 else None
+
+    def ob(props, key, ok, what, f):
+        ctx.ob(props, 'R-EXPR', 'plumbing|' + key, bool(ok), what, loc(f.span) if f else '')
+
+    f = one('TypeRegistry::pointer_size')
+    e = single_exit(f) if f else None
+    ob(['C01', 'C02', 'C04'], 'pointer_size', e is not None and strip(e) == ('field', ('arg', 1, 'self'), 'pointer_size'), 'pointer_size() returns the configured pointer size unchanged: %s' % (show(e) if e else None), f)
+    f = one('TypeRegistry::new')
+    e = single_exit(f) if f else None
+    okn = e is not None and e[0] == 'agg' and strip(dict(e[2]).get('pointer_size', ('x',)))[0] == 'arg'
+    ob(['C01', 'C02'], 'registry-new', okn, 'TypeRegistry::new stores its pointer_size argument', f)
+    f = one('SemanticState::new')
+    okc = False
+    if f:
+        cs = [c for c in f.calls(lambda r: r['path'] and r['path'].endswith('TypeRegistry::new'))]
+        okc = len(cs) == 1 and strip(f.expr_of_operand(cs[0]['term']['args'][0]))[0] == 'arg'
+    ob(['C01', 'C02'], 'state-new', okc, 'SemanticState::new passes its pointer_size argument to the registry', f)
+    f = P.fns.get('build')
+    okb = False
+    if f:
+        cs = [c for c in f.calls(lambda r: r['path'] and r['path'].endswith('SemanticState::new'))]
+        okb = len(cs) == 1 and strip(f.expr_of_operand(cs[0]['term']['args'][0]))[0] == 'arg'
+    ob(['C01', 'C02'], 'lib-build', okb, 'build() passes its pointer_size argument to SemanticState::new', f)
+    f = one('type_definition::Region::size')
+    e = single_exit(f) if f else None
+    okr = e is not None and is_call(e, 'Type::size') and strip(e[2][0]) == ('field', ('arg', 1, 'self'), 'type_ref')
+    ob(['C01', 'C02'], 'Region::size', okr, 'Region::size is the size of the region\'s own type_ref: %s' % (show(e) if e else None), f)
+    for nm in ('size', 'alignment'):
+        f = one('types::ItemDefinition::' + nm)
+        e = single_exit(f) if f else None
+        ok = False
+        if e is not None and is_call(e, 'Option::<T>::map') and is_call(e[2][0], 'ItemDefinition::resolved') and e[2][1][0] == 'closure' and e[2][1][1] in P.fns:
+            ce = single_exit(P.fns[e[2][1][1]])
+            ok = ce is not None and strip(ce)[0] == 'field' and strip(ce)[2] == nm
+        ob(['C01', 'C02'], 'ItemDefinition::' + nm, ok, 'ItemDefinition::%s() is the resolved state\'s `%s` field' % (nm, nm), f)
+        t = one('types::Type::' + nm)
+        okc = False
+        if t:
+            for c in P.closures_of(t):
+                ce = single_exit(c)
+                if ce is not None and is_call(ce, 'ItemDefinition::' + nm):
+                    okc = True
+        ob(['C01', 'C02', 'C11'], 'Type::%s|Raw-closure' % nm, okc, 'for a named type, Type::%s asks the registry entry for its %s (not the other quantity)' % (nm, nm), t)
+    f = one('types::ItemDefinition::resolved')
+    okr = False
+    if f:
+        sm = [x['expr'] for x in f.exits() if x['kind'] == 'some']
+        okr = len(sm) == 1 and any(isinstance(y, tuple) and y[0] == 'payload' and y[2] == 'Resolved' for y in walk(sm[0]))
+    ob(['C02', 'C10'], 'ItemDefinition::resolved', okr, 'resolved() is Some exactly for ItemState::Resolved and returns that state', f)
+    f = one('TypeRegistry::padding_type')
+    e = single_exit(f) if f else None
+    okp = False
+    if e is not None and e[0] == 'agg' and e[1].endswith('Type::Array'):
+        d = dict(e[2])
+        cnt = strip(d.get('1', ('x',)))
+        el = d.get('0')
+        okp = cnt[0] == 'arg' and el is not None and bool(find_calls(el, 'resolve_string')) and ('str', 'u8') in list(walk(el))
+    ob(['C01', 'C02', 'C20'], 'padding_type', okp, 'padding of n bytes is [u8; n] with exactly the requested n: %s' % (show(e)[:120] if e else None), f)
+    f = one('TypeRegistry::get')
+    e = single_exit(f) if f else None
+    okg = e is not None and e[0] == 'call' and re.search(MAPM('get'), e[1]) and strip(e[2][1])[0] == 'arg' and strip(e[2][0]) == ('field', ('arg', 1, 'self'), 'types')
+    ob(['C11', 'C02', 'C19'], 'TypeRegistry::get', okg, 'registry lookup is by the full path given', f)
+    f = one('type_registry::TypeRegistry::resolve_grammar_type')
+    okg = False
+    if f:
+        sw = [s_ for s_ in f.switches() if s_['cond'][0] == 'discr' and strip(s_['cond'][1])[0] == 'arg']
+        if len(sw) == 1:
+            arms = {}
+            for lab, tgt in sw[0]['edges']:
+                arms[lab] = [x['expr'] for x in f.exits() if f.dominates(tgt, x['block'])]
+            def wraps(lab, ctor):
+                v = arms.get(lab, [])
+                if len(v) != 1 or not is_call(v[0], 'Option::<T>::map'):
+                    return False
+                rec, cl = v[0][2][0], v[0][2][1]
+                if not (is_call(rec, 'resolve_grammar_type') and cl[0] == 'closure' and cl[1] in P.fns):
+                    return False
+                ce = single_exit(P.fns[cl[1]])
+                return ce is not None and ce[0] == 'agg' and ce[1].endswith('Type::' + ctor)
+            okg = wraps('ConstPointer', 'ConstPointer') and wraps('MutPointer', 'MutPointer') and wraps('Array', 'Array')
+            v = arms.get('Unknown', [])
+            okg = okg and len(v) == 1 and bool(find_calls(v[0], 'padding_type'))
+            v = arms.get('Ident', [])
+            okg = okg and len(v) == 1 and is_call(v[0], 'resolve_string')
+            # array length handed on unchanged
+            v = arms.get('Array', [])
+            if okg and v:
+                cl = v[0][2][1]
+                ce = single_exit(P.fns[cl[1]])
+                n_ = dict(ce[2]).get('1')
+                okg = strip(n_)[0] in ('upvar', 'field', 'payload', 'arg') and not any(isinstance(y, tuple) and y[0] == 'bin' for y in walk(n_))
+    ob(['C01', 'C02', 'C11', 'C18'], 'resolve_grammar_type', okg,
+       'grammar types map structurally: *const→ConstPointer, *mut→MutPointer, [T; n]→Array(T, n) with n unchanged, unknown<n>→padding, names→resolve_string', f)
